@@ -49,6 +49,7 @@ type Profile struct {
 	BlockMaxGas       int64 // > 0: block gas limit of the consensus parameters
 	EdgeAddresses     bool // two of the genesis validators have addresses ending in 0xFF and 0x00
 	UnstakingTimeChanges bool // governance changes pos/UnstakingTime (both directions) while validators are unstaking
+	WindowChanges     bool   // governance changes pos/SignedBlocksWindow in the middle of the history
 	OddGenesis        string // a deliberately inconsistent pos genesis (see GenesisConfig.Defect)
 	HugeGenesisStake  bool   // a genesis validator whose stake exceeds int64
 	ImpliedSupply     bool // the genesis file states no supply (auth sums the accounts in the store; pos is initialised first) and repeats an account entry
